@@ -86,6 +86,7 @@ func runC03(c *core.Ctx) {
 	checkLockPairs(c, "R3.6", sharedG, exclG)
 	c.Rule("R3.7", "the lock constructors wrap on every path: no return of Locked / LockedWithExisting hands the given orchestrator constructor back unwrapped", 2)
 	checkConstructorsAlwaysWrap(c, "R3.7", role.Impl.Named)
+	c.Share(map[string]string{"R14.3": "R3.9"}, runC14) // a reply header used after its release is overwritten by another connection's reply: the command's outcome is no longer that of any serial order
 	c.Share(map[string]string{"R6.2": "R3.8"}, runC06) // L1 and L2 agree at the end only if each tier executes the command it was sent (a batched L1 that appends where L2 prepends differs for good)
 	// wrapper fields -> table
 	fieldTable := map[string]string{}
